@@ -2,6 +2,7 @@ package annotations
 
 import (
 	"sort"
+	"strings"
 
 	"google.golang.org/protobuf/compiler/protogen"
 	"google.golang.org/protobuf/proto"
@@ -73,34 +74,35 @@ func CombineHeaders(serviceHeaders, methodHeaders []*http.Header) []*http.Header
 		return serviceHeaders
 	}
 
-	// Create a map to track headers by name for deduplication
+	// Create a map to track headers by name for deduplication. HTTP header names are
+	// case-insensitive, so "X-Tenant-ID" and "x-tenant-id" are the same header.
 	headerMap := make(map[string]*http.Header)
 
 	// Add service headers first
 	for _, header := range serviceHeaders {
 		if header.GetName() != "" {
-			headerMap[header.GetName()] = header
+			headerMap[strings.ToLower(header.GetName())] = header
 		}
 	}
 
 	// Add method headers, overriding service headers with same name
 	for _, header := range methodHeaders {
 		if header.GetName() != "" {
-			headerMap[header.GetName()] = header
+			headerMap[strings.ToLower(header.GetName())] = header
 		}
 	}
 
 	// Get sorted header names for deterministic output
 	headerNames := make([]string, 0, len(headerMap))
-	for name := range headerMap {
-		headerNames = append(headerNames, name)
+	for _, header := range headerMap {
+		headerNames = append(headerNames, header.GetName())
 	}
 	sort.Strings(headerNames)
 
 	// Build result in sorted order
 	result := make([]*http.Header, 0, len(headerMap))
 	for _, name := range headerNames {
-		result = append(result, headerMap[name])
+		result = append(result, headerMap[strings.ToLower(name)])
 	}
 
 	return result
